@@ -180,6 +180,23 @@ def check(item):
   F = conv.Feature
   outcome = [src, got]
   if not (p[3] & {F.ALL, F.NAME_SCOPES, F.AUTO_CONTROL_DEPS}):
+    # what a function scope hands to callees
+    n['evaluations'] += 2
+    try:
+      from malt.operators import function_wrappers
+      sc = function_wrappers.FunctionScope('f', 'fscope', o)
+      co = sc.callopts
+      gotc = (co.recursive, co.user_requested, co.internal_convert_user_code, frozenset(co.optional_features))
+      if gotc != exp:
+        viol.append(V('scope-callopts', 'FunctionScope(options=%r).callopts = %r, expected %r' % (p, gotc, exp), item))
+      seen = []
+      function_wrappers.with_function_scope(lambda scope: seen.append(scope.callopts), 'lscope', o)
+      co = seen[0]
+      gotc = (co.recursive, co.user_requested, co.internal_convert_user_code, frozenset(co.optional_features))
+      if gotc != exp:
+        viol.append(V('lambda-scope-callopts', 'with_function_scope(options=%r) callopts = %r, expected %r' % (p, gotc, exp), item))
+    except Exception as e:  # pylint:disable=broad-except
+      viol.append(V('scope-raises', 'FunctionScope under options %r raises %s: %s' % (p, type(e).__name__, str(e)[:200]), item))
     fname = '<c20_%d>' % i
     s = _SRC + '\n_ID = %d\n' % i
     linecache.cache[fname] = (len(s), None, s.splitlines(True), fname)
